@@ -425,6 +425,20 @@ class Exprs:
             return VModuleRef(x)
         if kind == "external":
             return self.external_value(x)
+        if kind == "mutable-global":
+            # module-level state that some function changes: at a call its content is whatever earlier calls left
+            mod, st, line = x
+            key = ("global", mod.name, name)
+            if key not in self.path.cache:
+                ann = getattr(st, "type_comment", None) or getattr(st, "annotation", None)
+                if ann is None:
+                    raise Unsupported(f"module-level state {name} (changed at line {line}) has no declared type")
+                note = (f"module-level state {mod.name}.{name} is changed by the code (line {line}): its content at a "
+                        f"call is taken as arbitrary (of its declared type)")
+                if note not in self.path.assumptions_used:
+                    self.path.assumptions_used.append(note)
+                self.path.cache[key] = self.mk_sym(ann, mod, "$state." + name)
+            return self.path.cache[key]
         if kind == "assign":
             mod, expr = x
             key = ("global", mod.name, name)
@@ -1174,6 +1188,9 @@ class Exprs:
 
     # ---------------------------------------------------------------- comprehensions
     def ev_ListComp(self, node: ast.ListComp, fr: Frame) -> V:
+        cspec = self.comp_spec(fr, node) if not fr.in_spec else None
+        if cspec is not None:
+            return self.comp_as_loop(node, cspec, fr)
         if len(node.generators) == 1 and not node.generators[0].ifs and not fr.in_spec:
             g = node.generators[0]
             src = self.ev(g.iter, fr)
